@@ -293,16 +293,29 @@ func (o *offsetDB) save(jobs map[pipeline.SourceID]*Job, mu *sync.RWMutex) {
 	_, err = file.Write(o.buf)
 	if err != nil {
 		logger.Errorf("can't write offsets file %s, %s", o.tmpOffsetsFile, err.Error())
+		o.discardTmp(string(tmpWithRandom))
+		return
 	}
 
 	err = file.Sync()
 	if err != nil {
 		logger.Errorf("can't sync offsets file %s, %s", o.tmpOffsetsFile, err.Error())
+		o.discardTmp(string(tmpWithRandom))
+		return
 	}
 
 	err = os.Rename(string(tmpWithRandom), o.curOffsetsFile)
 	if err != nil {
 		logger.Errorf("failed renaming temporary offsets file to current: %s", err.Error())
+	}
+}
+
+// discardTmp removes a temporary offsets file that wasn't completely written,
+// so it never replaces the current offsets file.
+func (o *offsetDB) discardTmp(tmpFile string) {
+	err := os.Remove(tmpFile)
+	if err != nil {
+		logger.Errorf("can't remove temp offsets file %s, %s", tmpFile, err.Error())
 	}
 }
 
